@@ -21,6 +21,7 @@
 #############################################################################
 
 from abc import abstractmethod
+import datetime
 import logging
 from typing import AbstractSet
 
@@ -38,6 +39,7 @@ from dashlive.server.routes import routes, Route
 from dashlive.server.options.container import OptionsContainer
 from dashlive.server.options.repository import OptionsRepository
 from dashlive.utils.json_object import JsonObject
+from dashlive.utils.timezone import UTC
 
 from .csrf import CsrfProtection
 from .exceptions import CsrfFailureException
@@ -108,6 +110,16 @@ class RequestHandlerBase(MethodView):
         if features is not None:
             options.remove_unsupported_features(features)
         options.add_field('mode', mode)
+        depth = options.timeShiftBufferDepth
+        if depth is not None and depth < 0:
+            raise ValueError('timeShiftBufferDepth must not be negative')
+        start = options.availabilityStartTime
+        if mode == 'live' and isinstance(start, datetime.datetime):
+            now = datetime.datetime.now(tz=UTC())
+            if options.clockDrift:
+                now -= datetime.timedelta(seconds=options.clockDrift)
+            if start > now:
+                raise ValueError('availabilityStartTime must not be in the future')
         # validates the parameters of the selected events (raises ValueError)
         EventFactory.create_event_generators(options)
         return options
